@@ -51,3 +51,313 @@ theorem next_quote (cx : Ctx) (m : Bool) (r : Bytes) (e : ErrSt) :
   intro _ h; exact absurd h (by decide)
 
 end C07
+
+namespace C07
+open Proc.Tok
+
+/-! ### sizes -/
+
+theorem decodeRune_size (c : UInt8) (t : Bytes) :
+    1 ≤ (decodeRune (c :: t)).2 ∧ (decodeRune (c :: t)).2 ≤ (c :: t).length := by
+  rcases t with _ | ⟨b1, _ | ⟨b2, _ | ⟨b3, t⟩⟩⟩ <;> simp only [decodeRune] <;>
+    (repeat' split) <;> simp
+
+theorem scanQuote_len_aux : ∀ (n : Nat) (r b rest : Bytes), r.length ≤ n →
+    scanQuote r = some (b, rest) → r.length = b.length + 1 + rest.length := by
+  intro n
+  induction n with
+  | zero =>
+    intro r b rest hn h
+    have : r = [] := List.length_eq_zero_iff.mp (by omega)
+    subst this; simp [scanQuote] at h
+  | succ n ih =>
+    intro r b rest hn h
+    match r with
+    | [] => simp [scanQuote] at h
+    | c :: r =>
+      by_cases hq : c = cQuote
+      · subst hq; rw [scanQuote_quote] at h; simp at h; obtain ⟨rfl, rfl⟩ := h; simp; omega
+      · by_cases hb : c = cBsl
+        · subst hb
+          match r with
+          | [] => rw [scanQuote_bsl_end] at h; simp at h
+          | d :: r' =>
+            rw [scanQuote_esc] at h
+            cases hs : scanQuote r' with
+            | none => simp [hs] at h
+            | some p =>
+              simp [hs] at h; obtain ⟨rfl, rfl⟩ := h
+              have := ih r' p.1 p.2 (by simp at hn; omega) (by simp [hs])
+              simp; omega
+        · rw [scanQuote_plain hq hb] at h
+          cases hs : scanQuote r with
+          | none => simp [hs] at h
+          | some p =>
+            simp [hs] at h; obtain ⟨rfl, rfl⟩ := h
+            have := ih r p.1 p.2 (by simp at hn; omega) (by simp [hs])
+            simp; omega
+
+theorem scanQuote_len {r b rest : Bytes} (h : scanQuote r = some (b, rest)) :
+    r.length = b.length + 1 + rest.length := scanQuote_len_aux r.length r b rest (Nat.le_refl _) h
+
+theorem reScan_len_aux : ∀ (n : Nat) (r : Bytes) (cs : Nat) (cp : Int) (x rest : Bytes), r.length ≤ n →
+    reScan r cs cp = some (x, rest) → x.length + rest.length = r.length ∧ 1 ≤ rest.length := by
+  intro n
+  induction n with
+  | zero =>
+    intro r cs cp x rest hn h
+    have : r = [] := List.length_eq_zero_iff.mp (by omega)
+    subst this; simp [reScan] at h
+  | succ n ih =>
+    intro r cs cp x rest hn h
+    match r with
+    | [] => simp [reScan] at h
+    | c :: r =>
+      rw [reScan.eq_def] at h
+      simp only at h
+      split at h
+      · simp at h; obtain ⟨rfl, rfl⟩ := h; simp
+      · split at h
+        · split at h
+          · simp at h
+          · rename_i d r'
+            split at h
+            · rename_i x' rest' heq
+              simp at h; obtain ⟨rfl, rfl⟩ := h
+              have := ih r' cs cp x' rest' (by simp at hn; omega) heq
+              simp; omega
+            · simp at h
+        · split at h
+          · rename_i x' rest' heq
+            simp at h; obtain ⟨rfl, rfl⟩ := h
+            have := ih r _ _ x' rest' (by simp at hn; omega) heq
+            simp; omega
+          · simp at h
+
+theorem reScan_len {r : Bytes} {cs : Nat} {cp : Int} {x rest : Bytes} (h : reScan r cs cp = some (x, rest)) :
+    x.length + rest.length = r.length ∧ 1 ≤ rest.length :=
+  reScan_len_aux r.length r cs cp x rest (Nat.le_refl _) h
+
+/-- `bareSplit` only cuts the input in two -/
+theorem bareSplit_append (cx : Ctx) : ∀ (f : Nat) (q : Bytes),
+    (bareSplit cx f q).1 ++ (bareSplit cx f q).2 = q := by
+  intro f
+  induction f with
+  | zero => intro q; simp [bareSplit]
+  | succ f ih =>
+    intro q
+    match q with
+    | [] => simp [bareSplit]
+    | c :: t =>
+      simp only [bareSplit]
+      split
+      · simp
+      · have := ih ((c :: t).drop (decodeRune (c :: t)).2)
+        simp only [List.append_assoc, this, List.take_append_drop]
+
+theorem decodeRune_hi (c : UInt8) (t : Bytes) (h : ¬ c < 0x80) : 0x80 ≤ (decodeRune (c :: t)).1 := by
+  rcases t with _ | ⟨b1, _ | ⟨b2, _ | ⟨b3, t⟩⟩⟩ <;> simp only [decodeRune] <;>
+    (repeat' split) <;>
+    simp_all [runeError, isCont, UInt8.le_iff_toNat_le, UInt8.lt_iff_toNat_lt, ← UInt8.toNat_inj] <;> omega
+
+theorem decodeRune_lo (c : UInt8) (t : Bytes) (h : c < 0x80) : decodeRune (c :: t) = (c.toNat, 1) := by
+  simp [decodeRune, h]
+
+/-! ### well-formedness of tokenizer results -/
+
+/-- how the error tracker may change while working inside `q`: unchanged, or set for the first
+time to an error positioned at a tokenizer state no longer than `q` -/
+def ErrOK (cx : Ctx) (q : Bytes) (e e' : ErrSt) : Prop :=
+  e' = e ∨ (e = none ∧ ∃ q' m, e' = some ⟨offOf cx q', m⟩ ∧ q'.length ≤ q.length)
+
+theorem ErrOK.refl (cx : Ctx) (q : Bytes) (e : ErrSt) : ErrOK cx q e e := Or.inl rfl
+
+theorem ErrOK.mono {cx : Ctx} {q q1 : Bytes} {e e' : ErrSt} (h : ErrOK cx q1 e e') (hl : q1.length ≤ q.length) :
+    ErrOK cx q e e' := by
+  rcases h with h | ⟨h1, q', m, h2, h3⟩
+  · exact Or.inl h
+  · exact Or.inr ⟨h1, q', m, h2, by omega⟩
+
+theorem ErrOK.trans {cx : Ctx} {q : Bytes} {e e1 e2 : ErrSt} (h1 : ErrOK cx q e e1) (h2 : ErrOK cx q e1 e2) :
+    ErrOK cx q e e2 := by
+  rcases h1 with h1 | ⟨h1, q', m, h1', h1''⟩
+  · subst h1; exact h2
+  · rcases h2 with h2 | ⟨h2, _⟩
+    · subst h2; exact Or.inr ⟨h1, q', m, h1', h1''⟩
+    · rw [h1'] at h2; simp at h2
+
+theorem recErr_ok (cx : Ctx) {q q' : Bytes} (m : Msg) (e : ErrSt) (h : q'.length ≤ q.length) :
+    ErrOK cx q e (recErr cx q' m e) := by
+  cases e with
+  | none => exact Or.inr ⟨rfl, q', m, rfl, h⟩
+  | some x => exact Or.inl rfl
+
+theorem recErr_isSome (cx : Ctx) (q : Bytes) (m : Msg) (e : ErrSt) : (recErr cx q m e).isSome := by
+  cases e <;> simp [recErr]
+
+theorem recErr_some (cx : Ctx) (q : Bytes) (m : Msg) (x : Err) : recErr cx q m (some x) = some x := rfl
+
+structure TokOK (cx : Ctx) (q : Bytes) (e : ErrSt) (r : TokR) : Prop where
+  cur_le : r.cur.length ≤ q.length
+  rest_le : r.rest.length ≤ r.cur.length
+  rest_lt : r.tok.kind ≠ 0 → r.rest.length < r.cur.length
+  err : ErrOK cx q e r.err
+  errKind : r.err ≠ e → r.tok.kind = 0
+  off : r.tok.off = offOf cx r.cur
+
+theorem tokError_ok (cx : Ctx) {q q' : Bytes} (m : Msg) (e : ErrSt) (h : q'.length ≤ q.length) :
+    TokOK cx q e (tokError cx q' m e) :=
+  ⟨h, by simp [tokError, mkTok], by simp [tokError, mkTok], recErr_ok cx m e h, by simp [tokError, mkTok],
+   by simp [tokError, mkTok]⟩
+
+theorem mkTok_ok (cx : Ctx) {q cur rest : Bytes} (kind : UInt8) (tok : Bytes) (e : ErrSt)
+    (h1 : cur.length ≤ q.length) (h2 : rest.length < cur.length) :
+    TokOK cx q e (mkTok cx cur kind tok rest e) :=
+  ⟨h1, by simp [mkTok]; omega, by simp [mkTok]; omega, Or.inl rfl, by simp [mkTok], by simp [mkTok]⟩
+
+theorem quotedWord_ok (cx : Ctx) (c : UInt8) (r : Bytes) (e : ErrSt) :
+    TokOK cx (c :: r) e (quotedWord cx (c :: r) e) := by
+  unfold quotedWord
+  simp only [List.drop_succ_cons, List.drop_zero]
+  cases hs : scanQuote r with
+  | none => exact tokError_ok cx _ e (Nat.le_refl _)
+  | some p =>
+    obtain ⟨body, rest⟩ := p
+    have hl := scanQuote_len hs
+    simp only
+    split
+    · exact tokError_ok cx _ e (Nat.le_refl _)
+    · exact mkTok_ok cx _ _ e (Nat.le_refl _) (by simp; omega)
+
+theorem regexpTok_ok (cx : Ctx) (c : UInt8) (r : Bytes) (e : ErrSt) :
+    TokOK cx (c :: r) e (regexpTok cx (c :: r) e) := by
+  unfold regexpTok
+  simp only [List.drop_succ_cons, List.drop_zero]
+  cases hs : reScan r 0 0 with
+  | none => exact tokError_ok cx _ e (Nat.le_refl _)
+  | some p =>
+    obtain ⟨x, rest⟩ := p
+    have hl := reScan_len hs
+    simp only
+    split
+    · exact tokError_ok cx _ e (Nat.le_refl _)
+    · split
+      · exact mkTok_ok cx _ _ e (Nat.le_refl _) (by simp; omega)
+      · exact tokError_ok cx _ e (by rw [List.length_drop, List.length_cons]; omega)
+
+theorem bareWord_ok (cx : Ctx) (c : UInt8) (t : Bytes) (e : ErrSt)
+    (h1 : isStartOpB c = false) (h2 : isSpaceLen cx (c :: t) = 0) :
+    TokOK cx (c :: t) e (bareWord cx (c :: t) e) := by
+  have hsz := decodeRune_size c t
+  have hstop : (isSpaceRune cx (decodeRune (c :: t)).1 || isOpR (decodeRune (c :: t)).1) = false := by
+    have hs : isSpaceRune cx (decodeRune (c :: t)).1 = false := by
+      simp only [isSpaceLen] at h2
+      split at h2
+      · omega
+      · cases hh : isSpaceRune cx (decodeRune (c :: t)).1 with
+        | false => rfl
+        | true => simp [hh] at h2; omega
+    have ho : isOpR (decodeRune (c :: t)).1 = false := by
+      by_cases hc : c < 0x80
+      · rw [decodeRune_lo c t hc]
+        simp only [isStartOpB, isStartOpR, Bool.or_eq_false_iff] at h1
+        exact h1.1.1
+      · have := decodeRune_hi c t hc
+        simp only [isOpR, Bool.or_eq_false_iff, beq_eq_false_iff_ne]
+        omega
+    simp [hs, ho]
+  have happ := bareSplit_append cx ((c :: t).length + 1) (c :: t)
+  have hne : (bareSplit cx ((c :: t).length + 1) (c :: t)).1 ≠ [] := by
+    simp only [bareSplit, hstop]
+    simp
+    intro h; simp at hsz; omega
+  have hlen : (bareSplit cx ((c :: t).length + 1) (c :: t)).2.length < (c :: t).length := by
+    have h3 := congrArg List.length happ
+    rw [List.length_append] at h3
+    have : 0 < (bareSplit cx ((c :: t).length + 1) (c :: t)).1.length := List.length_pos_iff.mpr hne
+    omega
+  unfold bareWord
+  split
+  rename_i word rest heq
+  rw [heq] at hlen
+  simp only at hlen
+  split
+  · exact mkTok_ok cx _ _ e (Nat.le_refl _) hlen
+  · split
+    · exact mkTok_ok cx _ _ e (Nat.le_refl _) hlen
+    · exact mkTok_ok cx _ _ e (Nat.le_refl _) hlen
+
+theorem isSpaceLen_le (cx : Ctx) (q : Bytes) : isSpaceLen cx q ≤ q.length := by
+  match q with
+  | [] => simp [isSpaceLen]
+  | c :: t =>
+    have := decodeRune_size c t
+    simp only [isSpaceLen]
+    split
+    · simp
+    · split
+      · exact this.2
+      · omega
+
+theorem TokOK.mono {cx : Ctx} {q q1 : Bytes} {e : ErrSt} {r : TokR} (h : TokOK cx q1 e r)
+    (hl : q1.length ≤ q.length) : TokOK cx q e r :=
+  ⟨by have := h.cur_le; omega, h.rest_le, h.rest_lt, h.err.mono hl, h.errKind, h.off⟩
+
+/-- every call of `next` returns a well-formed result (any fuel, any mode) -/
+theorem nextF_ok (cx : Ctx) (m : Bool) : ∀ (f : Nat) (q : Bytes) (e : ErrSt), TokOK cx q e (nextF cx m f q e) := by
+  intro f
+  induction f with
+  | zero =>
+    intro q e
+    exact ⟨Nat.le_refl _, by simp [nextF, mkTok], by simp [nextF, mkTok], Or.inl rfl, by simp [nextF, mkTok],
+      by simp [nextF, mkTok]⟩
+  | succ f ih =>
+    intro q e
+    match q with
+    | [] =>
+      exact ⟨Nat.le_refl _, by simp [nextF, mkTok], by simp [nextF, mkTok], Or.inl rfl, by simp [nextF, mkTok],
+        by simp [nextF, mkTok]⟩
+    | c :: r =>
+      simp only [nextF]
+      split
+      · exact mkTok_ok cx _ _ e (Nat.le_refl _) (by simp)
+      · rename_i hop
+        split
+        · rename_i hsp
+          have hle := isSpaceLen_le cx (c :: r)
+          exact (ih ((c :: r).drop (isSpaceLen cx (c :: r))) e).mono (by rw [List.length_drop]; omega)
+        · rename_i hsp
+          split
+          · exact regexpTok_ok cx c r e
+          · split
+            · exact quotedWord_ok cx c r e
+            · exact bareWord_ok cx c r e (by simpa using hop) (by omega)
+
+theorem next_ok (cx : Ctx) (m : Bool) (q : Bytes) (e : ErrSt) : TokOK cx q e (next cx m q e) :=
+  nextF_ok cx m _ q e
+
+/-- more fuel than the remaining length changes nothing -/
+theorem nextF_fuel (cx : Ctx) (m : Bool) : ∀ (f : Nat) (q : Bytes) (e : ErrSt), q.length < f →
+    nextF cx m f q e = nextF cx m (q.length + 1) q e := by
+  intro f
+  induction f with
+  | zero => intro q e h; omega
+  | succ f ih =>
+    intro q e h
+    match q with
+    | [] => simp [nextF]
+    | c :: r =>
+      simp only [nextF, List.length_cons]
+      split
+      · rfl
+      · split
+        · rename_i hsp
+          have hle := isSpaceLen_le cx (c :: r)
+          have hlen : ((c :: r).drop (isSpaceLen cx (c :: r))).length < (c :: r).length := by
+            rw [List.length_drop]; simp at hle ⊢; omega
+          rw [ih _ e (by simp at h hlen ⊢; omega)]
+          have := ih ((c :: r).drop (isSpaceLen cx (c :: r))) e (f := r.length + 1)
+          sorry
+        · rfl
+
+end C07
